@@ -16,7 +16,7 @@ from .. import common, dumps
 
 LEVEL = "proof"
 ASSUME = ["Coq kernel (vm_compute over the generated inventory); translator gen/gen_globals.py (regex scan of every write of cpd.<field>; fails on writes outside recognised functions)",
-          "file-scope statics other than cpd and the option objects (temporarily changed by options_for_QT.cpp) are NOT in the inventory: covered by the batch-vs-single oracle only",
+          "static-storage variables outside cpd are inventoried by name (Gen/Globals.v static_vars) and reviewed one by one in FrameInst.v; what they hold is covered by the batch-vs-single oracle only; the option objects (temporarily changed by options_for_QT.cpp) likewise",
           "the reviewed justifications in coq/Proofs/FrameInst.v", "files on which a single run fails are not part of a batch (the process exits at the first failing file)"]
 
 POOL = [
@@ -40,12 +40,15 @@ POOL = [
     ("java.java", b"class A { void f() { super.f(); int[] a = new int[3]; } }\n"),
     ("qt.cpp", b"void W::s() { connect(&m, SIGNAL(mapped(QString &)), this, SLOT(onEvt(QString &))); }\nint  after ;\n"),
     ("includes.c", b"#include \"b.h\"\n#include \"a.h\"\n#include <z.h>\nint i;\n"),
+    # includes named after the file itself and after the other file: mod_sort_incl_import_prioritize_filename consults the file name
+    ("alpha.c", b"#include \"zeta.h\"\n#include \"alpha.h\"\n#include \"beta.h\"\n\nint alpha(void)\n{\n   return 1;\n}\n"),
+    ("beta.c", b"#include \"zeta.h\"\n#include \"alpha.h\"\n#include \"beta.h\"\n\nint beta(void)\n{\n   return 2;\n}\n"),
     ("tabs.c", b"\tint\tt;\n\tvoid h(void) {\n\t\tt = 1;\t// c\n\t}\n"),
     ("cmt_cr_end.c", b"int c; // trailing\r"),
     ("string_tab.cs", b"class K { string s = \"a\tb\"; }\n"),
     ("align.c", b"int a = 1;\nlong bbb = 22;\nstruct { int x; char yy; } v = { .x = 1, .yy = 2 };\n"),
 ]
-CFG = "indent_columns=4\nindent_with_tabs=0\nsp_arith=force\nalign_assign_span=1\nmod_sort_include=true\nnl_max=2\nalign_struct_init_span=1\nstring_replace_tab_chars=true\n"
+CFG = "indent_columns=4\nindent_with_tabs=0\nsp_arith=force\nalign_assign_span=1\nmod_sort_include=true\nmod_sort_incl_import_prioritize_filename=true\nnl_max=2\nalign_struct_init_span=1\nstring_replace_tab_chars=true\n"
 
 
 def run(rep, build, tier, seed):
@@ -110,7 +113,8 @@ def run(rep, build, tier, seed):
         wd = tempfile.mkdtemp(dir=base)
         paths = []
         for i, f in enumerate(ok_files):
-            p = os.path.join(wd, "%d_%s" % (i, f))
+            os.makedirs(os.path.join(wd, str(i)))
+            p = os.path.join(wd, str(i), f)          # same base name as in the single run: some options consult the file's name
             shutil.copy(os.path.join(src, f), p)
             paths.append(p)
         if how == "F":
@@ -166,7 +170,8 @@ def replay(rp, build):
     margs = {"-lC": ["-l", "C"], "auto": [], "-lCPP": ["-l", "CPP"]}[rp.get("mode", "-lC")]
     paths = []
     for i, f in enumerate(rp["files"]):
-        p = os.path.join(base, "%d_%s" % (i, f))
+        os.makedirs(os.path.join(base, str(i)))
+        p = os.path.join(base, str(i), f)
         open(p, "wb").write(pool[f])
         paths.append(p)
     common.run_unc(["-q", "-c", cfgp] + margs + ["--suffix", ".out"] + paths)
